@@ -188,7 +188,7 @@ static MISSED: std::sync::atomic::AtomicUsize = std::sync::atomic::AtomicUsize::
 /// two cases in `share` belong to the transport streams (one TCP, one WebSocket)
 pub fn share(thorough: bool) -> u64 {
     if thorough {
-        600
+        1000
     } else {
         20
     }
